@@ -156,7 +156,8 @@ class E2:
         """Second/third solver on the same query text (thorough tier); runs in a worker pool, joined in finish()."""
         try:
             os.makedirs(self.smt2_dir, exist_ok=True)
-            path = os.path.join(self.smt2_dir, tag.replace("/", "_").replace(" ", "_")[:150] + ".smt2")
+            import re as _re
+            path = os.path.join(self.smt2_dir, "q%05d_%s.smt2" % (self.n_queries, _re.sub(r"[^A-Za-z0-9_.-]", "_", tag)[:120]))
             with open(path, "w") as f:
                 f.write("(set-logic ALL)\n" + s.to_smt2())
         except Exception as ex:
@@ -296,6 +297,29 @@ class E2:
         if self.cross:
             self.rep.self_tests["cross_checks"] = self.cross
         self.rep.bounds.setdefault("smt_cap_ms_per_query", self.cap_ms)
+
+
+def purify(formulas, names=("ln_real", "exp_real")):
+    """Replace applications of the uninterpreted real functions by fresh real variables (one per syntactically distinct
+    argument), so that the query is pure nonlinear real arithmetic.  This forgets functional consistency between
+    syntactically different but equal arguments, i.e. it proves a stronger statement."""
+    table = {}
+
+    def collect(t):
+        if z3.is_app(t):
+            if t.decl().name() in names and t.num_args() == 1:
+                key = t.decl().name() + "|" + t.arg(0).sexpr()
+                if key not in table:
+                    table[key] = (t, z3.Real("%s!%d" % (t.decl().name(), len(table))))
+            for ch in t.children():
+                collect(ch)
+
+    for f in formulas:
+        collect(f)
+    subs = list(table.values())
+    # substitute outermost applications first is unnecessary: z3.substitute matches whole terms simultaneously
+    out = [z3.substitute(f, *subs) if subs else f for f in formulas]
+    return out, {str(v): t for (t, v) in subs}
 
 
 # ------------------------------------------------------------------ value builders
